@@ -82,7 +82,23 @@ def _worker(args):
     return res
 
 
+def _watch_parent():
+    """a worker never outlives the check that started it (killed / timed-out parent): no orphans burning cores"""
+    import threading
+
+    ppid = os.getppid()
+
+    def loop():
+        while True:
+            time.sleep(2.0)
+            if os.getppid() != ppid:
+                os._exit(9)
+
+    threading.Thread(target=loop, daemon=True).start()
+
+
 def _chunk_main(conn, chunk):
+    _watch_parent()
     try:
         for t in chunk:
             conn.send((t[1], _worker(t)))
